@@ -100,6 +100,7 @@ def run(cx, chk):
     chk.rule("C19.S2", "exclusivity: &mut (or a &mut-yielding iterator) in the output needs a &mut receiver with the same region")
     chk.rule("C19.S3", "mutable iterators are neither Clone nor Copy; iterator structs carry their lifetime parameter")
     chk.rule("C19.S4", "every unsafe impl Send/Sync has the bounds its contents justify; no other manual Send/Sync impl")
+    chk.rule("C19.S5", "body-level exclusivity of the mutable iterators rests on next/next_back handing out each node once (C14.R1/R2): no iterator overrides another cursor-advancing method (nth, nth_back, advance_by, fold, ...)")
     chk.rule("C19.W", "compile-fail witnesses are rejected with the expected error code and their twins compile")
     for cfg, F in cx.cfgs():
         items = iterator_items(F)
@@ -108,6 +109,8 @@ def run(cx, chk):
         s1s2(chk, cfg, F, mut_iters)
         s3(chk, cfg, F, items, mut_iters)
         s4(chk, cfg, F, items)
+        from . import c14
+        c14.overrides(cx, chk, cfg, F, rule="C19.S5")
     witnesses(cx, chk)
 
 
